@@ -78,6 +78,9 @@ def scenarios(tier):
         for r in [('keys',), ('items',)] + ([('load',), ('len',)] if tier == 'thorough' else []):
             sc.append(dict(name='overwrite 7 || %s' % (r,), backend=b, prior=P3, actors=[W(('set', 7, 'new7')), R(r)]))
         sc.append(dict(name='overwrite a-b || %s' % (('keys',),), backend=b, prior=P3, actors=[W(('set', 'a-b', 'newdash')), R(('keys',))]))
+        # ... and twice by the same process (what its first overwrite leaves behind is there for the second)
+        sc.append(dict(name='overwrite 7 twice || %s' % (('keys',),), backend=b, prior=P3,
+                       actors=[W(('set', 7, 'new7'), ('set', 7, 'newer7')), R(('keys',))], bound=1 if tier == 'quick' else 2))
         # a cache bound to the archive that synchronises its one new entry, next to a writer that overwrites another key
         sc.append(dict(name='sync k3 || overwrite k1', backend=b, prior=P1,
                        actors=[W(('sync', (('k3', 'new3'),))), W(('set', 'k1', 'new1'))]))
